@@ -130,6 +130,16 @@ def cases(tier, seed):
         if wl == "lib":
             ufo["lib"]["com.github.googlei18n.ufo2ft.featureWriters"] = [{"class": "KernFeatureWriter"}, {"class": "MarkFeatureWriter", "options": {"quantization": 1}}]
         out.append({"cid": f"c17-{seed}-{k}", "lib": rng.choice(["ufoLib2", "defcon"]), "ufo": ufo, "writers": wl})
+    # the same sources compiled with a caller-owned featureWriters list [...] that has served another font before
+    import copy
+
+    picked = [c for c in out if c["writers"] == "default" and "feature kern" in (c["ufo"].get("fea") or "")][: (15 if tier == "quick" else 200)]
+    picked += [c for c in out if c["writers"] == "default" and "feature mark" in (c["ufo"].get("fea") or "") and c not in picked][: (10 if tier == "quick" else 100)]
+    for c in picked:
+        d = copy.deepcopy(c)
+        d["cid"] = c["cid"] + "-se"
+        d["writers"] = "sharedEllipsis"
+        out.append(d)
     return out
 
 
@@ -149,6 +159,9 @@ def _make_writers(kind):
 
     if kind in ("default", "lib"):
         return None, {"kern", "dist", "mark", "mkmk", "abvm", "blwm", "curs"}
+    if kind == "sharedEllipsis":
+        # ONE caller-owned list holding the placeholder, first used for ANOTHER font whose lib asks for append-mode writers
+        return [...], {"kern", "dist", "mark", "mkmk", "abvm", "blwm", "curs"}
     if kind == "ellipsis":
         return [CursFeatureWriter, ..., ], {"kern", "dist", "mark", "mkmk", "abvm", "blwm", "curs"}
     if kind == "gsublast":
@@ -172,6 +185,16 @@ def execute(case):
             kw["featureWriters"] = []
         elif ws is not None:
             kw["featureWriters"] = ws
+        if variant == "given" and case["writers"] == "sharedEllipsis":
+            P = 1024
+            sq = [[0, 0, "line"], [100 * P, 0, "line"], [100 * P, 100 * P, "line"], [0, 100 * P, "line"]]
+            other = {"glyphs": {"a": {"cs": [sq], "comps": [], "w": 500 * P, "h": 0, "u": [0x61], "anchors": [{"n": "top", "x": 50 * P, "y": 500 * P}]},
+                                "v": {"cs": [sq], "comps": [], "w": 500 * P, "h": 0, "u": [0x76], "anchors": []},
+                                "acutecomb": {"cs": [sq], "comps": [], "w": 0, "h": 0, "u": [0x301], "anchors": [{"n": "_top", "x": 0, "y": 400 * P}]}},
+                     "info": {"unitsPerEm": 1000, "ascender": 800, "descender": -200}, "kerning": [["a", "v", -40]], "kernScale": 1,
+                     "lib": {"com.github.googlei18n.ufo2ft.featureWriters": [{"class": "KernFeatureWriter", "options": {"mode": "append"}},
+                                                                            {"class": "MarkFeatureWriter", "options": {"mode": "append"}}]}}
+            ufo2ft.compileTTF(absfont.build_font(other, case["lib"]), featureWriters=ws, useProductionNames=False)
         dbg = io.StringIO()
         kw["debugFeatureFile"] = dbg
         with tracer.tracing([font], snap=False, glyphsets=False) as tr:
